@@ -791,7 +791,7 @@ func main() {
 	for _, fs := range cfg.scenarios {
 		n := fs.runs(tier)
 		if fs.enum {
-			out, err := runCmd(root, nil, worker, "-prop", prop, "-enumsize")
+			out, err := runCmd(root, nil, worker, "-prop", prop, "-scenario", fs.name, "-enumsize")
 			if err != nil {
 				trouble("worker -enumsize failed: %v\n%s", err, out)
 			}
